@@ -418,7 +418,12 @@ class Rewriter:
 
             else:
                 op = getattr(math, opname)
-            return like.context.constant(op(*args), like)
+            try:
+                value = op(*args)
+            except ValueError:
+                # e.g. math.sqrt of a negative number: keep the expression as it is
+                return
+            return like.context.constant(value, like)
 
     def absolute(self, expr):
         (x,) = expr.operands
